@@ -129,12 +129,14 @@ def add_number(reg):
                      pure=True, assumed='bounded: bounded/bigint.py long_to_bytes against int.to_bytes'))
     reg.add(Contract(N + 'bytes_to_long', params={'s': 'bytes'}, result='int',
                      ensures={'value': 'result == be(s)',
-                              'low32': 'len(s) >= 4 ==> result % 4294967296 == spec.aead1.be4(s[len(s) - 4:])'},
+                              'low32': 'len(s) >= 4 ==> result % 4294967296 == spec.aead1.be4(s[len(s) - 4:])',   # int(X) mod 2^32 = int(LSB_32(X))
+                              'inverse': 'spec.aead1.ibe(result, len(s)) == bytes(s)'},                           # [int(X)]_len(X) = X
                      pure=True, assumed='bounded: bounded/bigint.py bytes_to_long against int.from_bytes'))
 
 
-def registry(state=None, key='GCM'):
-    """state: the concrete value of `_next` at entry (tuple of method names); default = the initial state"""
+def registry(state=None, key='GCM', buf='buffer', out='none|bytearray'):
+    """state: the concrete value of `_next` at entry (tuple of method names); default = the initial state.
+    buf / out: type alternatives of the data and output= parameters (units may take them one at a time)"""
     reg = base_registry()
     add_number(reg)
     nat.add_random(reg)
@@ -152,7 +154,7 @@ def registry(state=None, key='GCM'):
 
     # ------------------------------------------------------------------ cache layer (C09)
     weak = ['len(self._cache) < 16', 'len(self._signer.g_fed) % 16 == 0']
-    reg.add(Contract(GM + '._update', params={'data': 'buffer'}, requires=weak, raises={},
+    reg.add(Contract(GM + '._update', params={'data': buf}, requires=weak, raises={},
                      ensures={'stream': '%s == %s + bytes(data)' % (S, OS), 'cache': 'len(self._cache) < 16',
                               'fed': 'len(self._signer.g_fed) % 16 == 0'},
                      modifies=['self._cache', 'self._signer.g_fed'], options={'assume_valid': False}))
@@ -163,13 +165,13 @@ def registry(state=None, key='GCM'):
 
     # ------------------------------------------------------------------ update
     ok = '"update" in self._next'
-    reg.add(Contract(GM + '.update', params={'assoc_data': 'buffer'},
+    reg.add(Contract(GM + '.update', params={'assoc_data': buf},
                      raises={'TypeError': ('iff', 'not (%s)' % ok),
                              'ValueError': ('iff', '%s and self._auth_len + len(assoc_data) > %s' % (ok, AUTH_MAX))},
                      ensures=ens({'stream': '%s == %s + bytes(assoc_data)' % (S, OS),
                               'auth_len': 'self._auth_len == old(self._auth_len) + len(assoc_data)',
                               'next': next_is(M, after(key, 'update')), 'self': 'result is self'}),
-                     sets={'self._next': repr(list(after(key, 'update')))},
+                     sets={'self._next': repr(tuple(after(key, 'update')))},
                      modifies=['self._next', 'self._cache', 'self._signer.g_fed', 'self._auth_len'], unchanged_on_raise=['TypeError'],
                      opaque=OPQ + ['spec.aead1.pad16']))
 
@@ -190,13 +192,13 @@ def registry(state=None, key='GCM'):
         else:
             raises = {'TypeError': ('iff', 'not (%s)' % ok),
                       'ValueError': ('iff', '%s and disj(%s, %s > %s)' % (ok, mismatch, total, MSG_MAX))}
-        reg.add(Contract('%s.%s' % (GM, meth), params={arg: 'buffer', 'output': 'none|bytearray'}, raises=raises,
+        nat.by_output(reg, Contract('%s.%s' % (GM, meth), params={arg: buf, 'output': out}, raises=raises,
                          ensures=ens({'value': '(output is None ==> result == %s) and (output is not None ==> (result is None and bytes(output) == %s))' % (val, val),
                                   'stream_first': 'impl(old(self._status) == 1, %s == spec.aead1.pad16(%s) + %s)' % (S, OS, ctv),
                                   'stream_next': 'impl(old(self._status) == 2, %s == %s + %s)' % (S, OS, ctv),
                                   'lengths': 'conj(self._msg_len == old(self._msg_len) + len(%s), self._auth_len == old(self._auth_len), self._status == 2)' % arg,
                                   'next': next_is(M, after(key, meth))}),
-                         sets={'self._next': repr(list(after(key, meth)))},
+                         sets={'self._next': repr(tuple(after(key, meth)))},
                          modifies=['self._next', 'self._status', 'self._cache', 'self._signer.g_fed', 'self._msg_len',
                                    'self._cipher.g_pos', 'self._cipher.g_dir', 'output'],
                          unchanged_on_raise=['TypeError'], opaque=OPQ))
@@ -220,20 +222,46 @@ def registry(state=None, key='GCM'):
     reg.add(Contract(GM + '.digest', params={}, raises={'TypeError': ('iff', 'not ("digest" in self._next)')},
                      ensures=ens({'tag': 'result == old(%s)' % TAG, 'cached': 'self._tag == result', 'idempotent': idem,
                                   'next': next_is(M, after(key, 'digest'))}),
-                     sets={'self._next': repr(list(after(key, 'digest'))), 'self._tag': 'old(%s)' % TAG}, returns='old(%s)' % TAG,
+                     sets={'self._next': repr(tuple(after(key, 'digest'))), 'self._tag': 'old(%s)' % TAG}, returns='old(%s)' % TAG,
                      modifies=['self._next'] + fin_mod, unchanged_on_raise=['TypeError'], opaque=OPQ + ['spec.aead1.pad16']))
-    reg.add(Contract(GM + '.verify', params={'received_mac_tag': 'buffer'},
+    reg.add(Contract(GM + '.verify', params={'received_mac_tag': buf},
                      raises={'TypeError': ('iff', 'not ("verify" in self._next)'),
                              'ValueError': ('iff', '"verify" in self._next and bytes(received_mac_tag) != %s' % TAG)},
                      ensures=ens({'cached': 'self._tag == old(%s)' % TAG, 'idempotent': idem, 'none': 'result is None',
                                   'next': next_is(M, after(key, 'verify'))}),
                      on_raise={'ValueError': ['self._tag == old(%s)' % TAG, next_is(M, after(key, 'verify')), idem]},
-                     sets={'self._next': repr(list(after(key, 'verify'))), 'self._tag': 'old(%s)' % TAG},
+                     sets={'self._next': repr(tuple(after(key, 'verify'))), 'self._tag': 'old(%s)' % TAG},
                      modifies=['self._next'] + fin_mod, unchanged_on_raise=['TypeError'], opaque=OPQ + ['spec.aead1.pad16'],
                      options={'on_raise_modifies': ['self._next'] + fin_mod}))
+    # ------------------------------------------------------------------ one-call forms (C01: decrypt_and_verify)
+    # the stream / message length after the single encrypt or decrypt call, over the ENTRY state
+    def s_after(ct):
+        return '(ite(self._status == 1, spec.aead1.pad16(%s), %s) + %s)' % (S, S, ct)
+    ct_val = 'spec.aead1.xor(bytes(plaintext), %s)' % ks('plaintext')
+    pt_val = 'spec.aead1.xor(bytes(ciphertext), %s)' % ks('ciphertext')
+    both_mod = ['self._next', 'self._status', 'self._cache', 'self._signer.g_fed', 'self._msg_len', 'self._cipher.g_pos',
+                'self._cipher.g_dir', 'output'] + fin_mod
+    tag_e = ('spec.aead1.gcm_tag(%s, %s, %s, %s, self._auth_len, self._msg_len + len(plaintext), self._mac_len)'
+             % (FID, KEY, J0, s_after(ct_val.replace('old(self._msg_len)', 'self._msg_len'))))
+    tag_d = ('spec.aead1.gcm_tag(%s, %s, %s, %s, self._auth_len, self._msg_len + len(ciphertext), self._mac_len)'
+             % (FID, KEY, J0, s_after('bytes(ciphertext)')))
+    e, d = reg.contracts[GM + '.encrypt'], reg.contracts[GM + '.decrypt']
+    reg.add(Contract(GM + '.encrypt_and_digest', params={'plaintext': buf, 'output': out}, raises=e.raises,
+                     ensures={'ciphertext': '(output is None ==> result[0] == %s) and (output is not None ==> (result[0] is None and bytes(output) == %s))' % (ct_val, ct_val),
+                              'tag': 'result[1] == old(%s)' % tag_e, 'cached': 'self._tag == result[1]',
+                              'next': next_is(M, after(key, 'digest'))},
+                     modifies=both_mod, unchanged_on_raise=['TypeError'], opaque=OPQ + ['spec.aead1.pad16']))
+    dv_raises = dict(d.raises)
+    dv_raises['ValueError'] = ('iff', '"decrypt" in self._next and disj(%s, self._msg_len + len(ciphertext) > %s, bytes(received_mac_tag) != %s)'
+                               % ('(output is not None and len(output) != len(ciphertext))', MSG_MAX, tag_d))
+    reg.add(Contract(GM + '.decrypt_and_verify', params={'ciphertext': buf, 'received_mac_tag': buf, 'output': out}, raises=dv_raises,
+                     ensures={'plaintext': '(output is None ==> result == %s) and (output is not None ==> (result is None and bytes(output) == %s))' % (pt_val, pt_val),
+                              'cached': 'self._tag == old(%s)' % tag_d, 'next': next_is(M, after(key, 'verify'))},
+                     modifies=both_mod, unchanged_on_raise=['TypeError'], opaque=OPQ + ['spec.aead1.pad16']))
+
     # ------------------------------------------------------------------ construction (C02 glue, C01 mac_len domain)
     bad = ('factory.block_size != 16 or len(nonce) == 0 or len(nonce) > %s or mac_len < 4 or mac_len > 16' % AUTH_MAX)   # 5.2.1.1: len(IV) in bits
-    reg.add(Contract(GM + '.__init__', params={'factory': 'obj:' + nat.FACTORY, 'key': 'buffer', 'nonce': 'buffer', 'mac_len': 'int',
+    reg.add(Contract(GM + '.__init__', params={'factory': 'obj:' + nat.FACTORY, 'key': buf, 'nonce': buf, 'mac_len': 'int',
                                                'cipher_params': nat.EMPTY_PARAMS, 'ghash_c': 'any'},
                      raises={'ValueError': ('iff', bad)},
                      ensures=ens({'nonce': 'self.nonce == bytes(nonce)', 'mac_len': 'self._mac_len == mac_len',
@@ -243,7 +271,7 @@ def registry(state=None, key='GCM'):
                                            'self._cipher.g_dir == 0, self._tag_cipher.g_dir == 0)' % S,
                                   'no_tag': 'self._tag is None',
                                   'next': next_is(M, t['init'])}),
-                     modifies=['self.*'], options={'assume_valid': False}, opaque=['spec.aead1.pad16']))
+                     modifies=['self.*'], options={'assume_valid': False}, opaque=['spec.aead1.pad16', 'spec.aead1.be4']))
     return reg
 
 
@@ -254,13 +282,68 @@ def _st(name):
     raise KeyError(name)
 
 
+PERMITTED = {'update': ['init'], 'encrypt': ['init', 'encrypting'], 'decrypt': ['init', 'decrypting'],
+             'digest': ['init', 'encrypting', 'digested'], 'verify': ['init', 'decrypting', 'verified'],
+             'encrypt_and_digest': ['init', 'encrypting'], 'decrypt_and_verify': ['init', 'decrypting']}
+BUFS = ['bytes', 'bytearray', 'memoryview']
+# the concrete values `_next` can take = reachable states of the documented automaton (fixpoint from the constructor);
+# that the CODE never produces another value is what the per-state `next` postconditions prove
+assert sorted(STATE_NAMES) == sorted(fsm.reach('GCM'))
+
+
 def units(prop, tier):
     from vf.pyunit import pyvc_unit
     import functools
     out = []
+    quick = tier == 'quick'
 
-    def u(uid, state, targets):
-        out.append(pyvc_unit(prop, 'gcm.%s@%s' % (uid, state), functools.partial(registry, _st(state)), [GM + '.' + t for t in targets]))
+    def u(targets, state='init', buf='buffer', out_t='none|bytearray', tag=''):
+        uid = 'gcm.%s%s@%s' % ('+'.join(targets), tag, state)
+        out.append(pyvc_unit(prop, uid, functools.partial(registry, _st(state), 'GCM', buf, out_t), [GM + '.' + t for t in targets]))
+
+    def per_buf(target, states, bufs=BUFS, out_t='none|bytearray'):
+        for s in states:
+            for b in bufs:
+                u([target], s, b, out_t, '[%s]' % b)
+    one = ['bytes'] if quick else BUFS           # quick tier: one buffer type where the type only travels to a native callee
+    init3 = [('bytes', 'bytes'), ('bytearray', 'memoryview'), ('memoryview', 'bytearray')]
     if prop == 'C09':
-        u('cache', 'init', ['_update', '_pad_cache_and_update'])
+        # cache discipline S' == S ++ data for every buffer type; output= path: the MAC is fed from the output buffer
+        u(['_update', '_pad_cache_and_update'])
+        u(['update'])
+        per_buf('encrypt', PERMITTED['encrypt'])
+        per_buf('decrypt', PERMITTED['decrypt'])
+    elif prop == 'C10':
+        for m in ('update', 'encrypt', 'decrypt', 'digest', 'verify', 'encrypt_and_digest', 'decrypt_and_verify'):
+            for s in STATE_NAMES.values():
+                if s in PERMITTED[m]:
+                    per_buf(m, [s], ['bytes'] if m != 'update' else ['buffer'])
+                else:
+                    u([m], s, 'bytes', tag='[forbidden]')
+    elif prop == 'C01':
+        per_buf('verify', PERMITTED['verify'], BUFS if not quick else ['bytes', 'bytearray'])
+        u(['_compute_mac'], 'digested')
+        u(['_compute_mac'], 'verified')
+        for s in PERMITTED['digest']:
+            u(['digest'], s)
+        per_buf('decrypt_and_verify', PERMITTED['decrypt_and_verify'], one)
+        per_buf('encrypt_and_digest', PERMITTED['encrypt_and_digest'], one)
+        for k, n in (init3 if quick else [(a, b) for a in BUFS for b in BUFS]):
+            out.append(pyvc_unit(prop, 'gcm.__init__[key:%s,nonce:%s]' % (k, n), functools.partial(_init_registry, k, n), [GM + '.__init__']))
+    elif prop == 'C11':
+        u(['update'])
+        per_buf('encrypt', PERMITTED['encrypt'], one)
+        per_buf('decrypt', PERMITTED['decrypt'], one)
+    elif prop == 'C02':
+        for k, n in (init3 if quick else [(a, b) for a in BUFS for b in BUFS]):
+            out.append(pyvc_unit(prop, 'gcm.__init__[key:%s,nonce:%s]' % (k, n), functools.partial(_init_registry, k, n), [GM + '.__init__']))
+        per_buf('encrypt', PERMITTED['encrypt'], one)
+        per_buf('decrypt', PERMITTED['decrypt'], one)
     return out
+
+
+def _init_registry(k, n):
+    reg = registry()
+    c = reg.contracts[GM + '.__init__']
+    c.params = dict(c.params, key=k, nonce=n)
+    return reg
